@@ -145,6 +145,14 @@ CHECKS.update({
         design="3/C16"),
 })
 
+CHECKS.update({
+    "C11": dict(
+        technique="property-based testing with a static analyser as oracle: batches of Hypothesis-generated packages type-checked by mypy under the repository's flags, plus runtime value-vs-annotation conformance and type-directed encoder probing",
+        text="Generated documents (all schema kinds in all positions, forward references, multi-status responses, both enum styles) are generated six to a batch and type-checked by one mypy process (~290 packages in quick); decoded instances and served responses are checked attribute by attribute / return value against the annotations that hold them; values constructed from each parameter annotation must be accepted by to_dict and _get_kwargs. The repository's own golden record is type-checked first as an environment sanity check.",
+        note="mypy verdicts depend on installed tool versions; errors keyed by (code, module kind, offending line shape); raw annotations are resolved by name to avoid typing's process-wide ForwardRef cache",
+        design="3/C11"),
+})
+
 NOT_YET = {}
 
 def main():
